@@ -26,6 +26,22 @@ func c08(p *core.Program, r *core.Report) {
 	c08LoadedAsSaved(p, r)
 	r.Rule("R5", "the op log stays attached: a fragment function that sets <fragment>.storage.OpWriter to nil has it attached again on every path on which it returns (a non-nil assignment, a call that reaches one, or the wait for the queued snapshot); one exempt function with reason")
 	opWriterReattached(p, r, "R5")
+	// R6: the key translation store keeps its next-id counter nowhere; it is rebuilt from the log on
+	// open. The obligations are C24-R4's (the sequence is only ever raised, per pair), under this property.
+	r.Rule("R6", "rebuilt counters (= C24-R4): an index's seq is written only by the pre-increment in the translate functions and by the raise-only update in applyEntry, applied to every pair of an entry")
+	{
+		tmp := core.NewReport("C24", r.Tier)
+		c24(p, tmp)
+		n6 := 0
+		for _, o := range tmp.Obls {
+			if o.Rule == "R4" {
+				o.Rule = "R6"
+				r.Obls = append(r.Obls, o)
+				n6++
+			}
+		}
+		r.Floor("C08/R6 sequence obligations taken over from C24-R4", n6, 2)
+	}
 	r.Rule("R3", "atomic replace: Field.saveMeta writes a temporary file and renames it over the meta file (write precedes rename on every path)")
 	r.NotDecided = "the v1-upgrade reinterpretation of BitDepth == 0 (value dependent), translation and attribute store contents, fragment data (C05/C09 cover the log), time views"
 	pk := p.Pkg("")
